@@ -999,6 +999,8 @@ def model_tree(fs):
     """parsed TLA+ fs function -> {loc tuple: (kind, target string, ino)}"""
     import json
     out = {}
+    if not fs:                  # the empty function prints as << >>
+        return out
     for k, nd in fs.items():
         loc = tuple(json.loads(k)) if isinstance(k, str) and k.startswith('[') \
             else tuple(k)
